@@ -469,3 +469,16 @@ Theorem C17_literal_text_exact : forall sg ds, sign_ok sg -> ds <> [] ->
      (sg <> [] -> exists x, bn_from_text (sg ++ ds) = TInt x /\ wf x /\ uval x = (sign_val sg * v) mod 2 ^ BINT_BITS)).
 Proof. exact from_text_correct. Qed.
 Print Assumptions C17_literal_text_exact.
+
+(* a text with a binary / hexadecimal prefix that the literal pattern does not match is an error ('malformed ... number') *)
+Theorem C17_literal_malformed_exact : forall s,
+  (has_prefix 98 66 s = true -> split_bin s = None -> bn_from_text s = TMalformed) /\
+  (has_prefix 98 66 s = false -> has_prefix 120 88 s = true -> split_hex s = None -> bn_from_text s = TMalformed).
+Proof. exact from_text_malformed. Qed.
+Print Assumptions C17_literal_malformed_exact.
+
+(* the assertion must test the first capture: testing the second one (truthy failure label) lets "0x3 " through *)
+Theorem C17_literal_match_check_needed :
+  bn_from_text_pol false [48; 120; 51; 32] <> TMalformed /\ split_hex [48; 120; 51; 32] = None.
+Proof. exact literal_check_neg_needed. Qed.
+Print Assumptions C17_literal_match_check_needed.
